@@ -255,12 +255,46 @@ def apply_to_all(facts, res):
             res.violation("C18.3.apply-visits-all", tbf.rel(facts.path_of(m)), m["qname"], "visit", m["l"][1], "applyToAllKernels does not hand every kernel copy to the callback")
 
 
+SHRINKERS = {"pop_back", "erase", "clear", "resize", "assign", "swap", "shrink_to_fit"}
+
+
+def kernel_vector_lifetime(facts, res):
+    """per-worker kernel copies (which hold the counters) live as long as the executor: the vector of
+    kernels is only ever grown (emplace_back / push_back / reserve), never shrunk, cleared or replaced"""
+    R = "C18.3.kernels-only-grow"
+    for cls in EXECUTORS:
+        fields = {f["name"]: f["t"] for f in facts.cls(cls)["fields"]}
+        if "kernels" not in fields:
+            continue
+        n = 0
+        for m in facts.methods_of(cls):
+            b = tbf.body(m)
+            if b is None:
+                continue
+            for x in walk(b):
+                if x.get("k") in ("CallExpr", "CXXMemberCallExpr"):
+                    base = tbf.call_base(x)
+                    if base is not None and strip(base).get("name") == "kernels" and strip(base).get("k") == "MemberExpr":
+                        nm = tbf.callee_name(x)
+                        n += 1
+                        res.instance(R, "%s::%s kernels.%s" % (cls, m["name"], nm), facts.loc(x), facts.ntext(x)[:80])
+                        if nm in SHRINKERS:
+                            res.violation(R, tbf.rel(facts.path_of(x)), m["qname"], "kernels.%s@%d" % (nm, x["l"][1]), x["l"][1],
+                                          "the per-worker kernel vector is shrunk/replaced (kernels.%s): counters held by the removed copies are lost before they can be merged" % nm)
+                if x.get("k") in ("BinaryOperator", "CXXOperatorCallExpr") and x.get("op") == "=":
+                    lhs = strip(kids(x)[0] if x.get("k") == "BinaryOperator" else kids(x)[1])
+                    if lhs.get("k") == "MemberExpr" and lhs.get("name") == "kernels":
+                        res.violation(R, tbf.rel(facts.path_of(x)), m["qname"], "kernels=@%d" % x["l"][1], x["l"][1], "the per-worker kernel vector is reassigned")
+        if n < 2:
+            raise AnalysisBroken("%s: fewer than 2 uses of the kernel vector found" % cls)
+
+
 def run(res, tier):
     facts = tbf.scan("core")
     res.units.append("umbrella TU 'core': TbfInteractionCounter/Timer/Printer, Counters/Timers::Reduce, applyToAllKernels of 6 executors")
     res.rule("C18.1 decorator operator M = state update + exactly one RealKernel::M(own parameters in order); no argument written; not const when it updates state")
     res.rule("C18.2 counter increment == documented count as a polynomial in the count parameters (role table of the operator interface)")
-    res.rule("C18.3 Reduce merges every field once from each operand; applyToAllKernels visits every kernel copy; (per-worker kernel selection is C03.d)")
+    res.rule("C18.3 Reduce merges every field once from each operand; applyToAllKernels visits every kernel copy; the per-worker kernel vector only grows (copies and their counters live as long as the executor); (per-worker kernel selection is C03.d)")
     res.rule("C18.4 README merge snippet + decorator composition compile for sequential, OpenMP and target/source executors")
     n = 0
     for cls in DECORATORS:
@@ -270,6 +304,7 @@ def run(res, tier):
     res.floor("C18.2", k, 8, "counter operators")
     reduce_coverage(facts, res)
     apply_to_all(facts, res)
+    kernel_vector_lifetime(facts, res)
     for comp in (("g++",) if tier == "quick" else ("g++", "clang++")):
         rc, err = tbf.compile_witness(MERGE_TU, compiler=comp, name="c18_merge.cpp", max_errors=5)
         res.instance("C18.4.merge-witness", comp, "witness:c18_merge", "counter/timer/counter(timer)/printer x sequential/OpenMP/target-source, README merge")
